@@ -21,8 +21,8 @@ RULE = (
 )
 ASSUMPTIONS = ["with tied arg-mins any consistent conqueror choice is accepted (the statement does not fix a tie rule)"]
 BUDGET = {
-    "quick": {"examples": 2400, "shards": 8, "min_nontrivial": 400},
-    "thorough": {"examples": 32000, "shards": 16, "min_nontrivial": 5000, "max_wall": 3000},
+    "quick": {"examples": 7200, "shards": 16, "min_nontrivial": 400},
+    "thorough": {"examples": 128000, "shards": 16, "min_nontrivial": 5000, "max_wall": 3000},
 }
 
 
